@@ -121,6 +121,7 @@ class Trace:
         open_calls = [0, 0]    # stream requests made by the application of each endpoint
         accepted = [0, 0]      # streams handed to the accepting application of each endpoint
         connect_at = {}        # (e, fid) -> label at which e last sent Connect fid
+        conn_seen = {}         # (e, fid) -> label at which e's task last took a Connect fid of the peer
         stale = [False, False] # endpoint e received a Reset/Acknowledge that belongs to an earlier incarnation of the id
         derived = set()        # (emitter, fid, label): frames emitted in answer to a frame of an earlier incarnation
         open_connect = {}      # (e, open index) -> label of the latest Connect emitted for that request
@@ -163,6 +164,14 @@ class Trace:
                 # the frame belongs to an earlier incarnation of its id if the receiver has sent a new Connect
                 # for that id since, or if it answers a frame its sender emitted before re-using the id
                 old = sent_at < connect_at.get((rx, fid), -1) or (1 - rx, fid, sent_at) in derived
+                # ... or if it is an Acknowledge / Reset that its sender emitted before it had seen the receiver's latest
+                # Connect for that id (it speaks of the sender's own earlier flow of that id, not of the new request)
+                if m[1] == 0:
+                    conn_seen[(rx, fid)] = k
+                elif m[1] in (1, 2) and (rx, fid) in connect_at:
+                    seen = conn_seen.get((1 - rx, fid), -1)
+                    if not (seen >= connect_at[(rx, fid)] and sent_at >= seen):
+                        old = True
                 # ... and whatever rx's task emits for this id while processing a frame that the SENDER emitted
                 # before re-using the id is an answer to the earlier incarnation as well
                 if m[1] != 0 and sent_at < connect_at.get((1 - rx, fid), -1):
